@@ -5,6 +5,10 @@
 PID=$1; WT=$2; PATCH=$3; TIER=${4:-quick}
 cd "$WT" || exit 2
 git checkout -q -- . || exit 2
+# seeds are applied on the commit they were written against (meta.json base_commit), unless they still apply on main
+BASE=$(python3 -c "import json,os,sys; p=os.path.join(os.path.dirname('$PATCH'),'meta.json'); print(json.load(open(p)).get('base_commit','') if os.path.exists(p) else '')" 2>/dev/null)
+git checkout -q --detach main 2>/dev/null
+if ! git apply --check "$PATCH" 2>/dev/null && [ -n "$BASE" ]; then git checkout -q --detach "$BASE"; echo "(applied on base commit $BASE)"; fi
 git apply "$PATCH" || { echo "PATCH-DOES-NOT-APPLY"; exit 2; }
 cd /verif
 mkdir -p out/seed-evidence
